@@ -134,6 +134,9 @@ func (c *Client) run(verb, sub string, k Key, dry, write bool, mgr string, effec
 		c.p.dead = true
 		ev.Outcome, ev.Injected = "dropped", dec.String()
 		return finish(ErrCrashed)
+	case FailNoMatch:
+		ev.Outcome, ev.Injected = "error", dec.String()
+		return finish(&apimeta.NoKindMatchError{GroupKind: schema.GroupKind{Group: k.Group, Kind: k.Kind}, SearchedVersions: []string{"v1"}})
 	case CacheMiss:
 		if !write {
 			ev.Outcome, ev.Injected = "notfound", dec.String()
